@@ -70,6 +70,16 @@ func forallIn[T any](s []T, lo, hi int, f func(k int, e T) bool) bool {
 	return true
 }
 
+// forallStr is forallIn over the bytes of a string.
+func forallStr(s string, lo, hi int, f func(k int, e byte) bool) bool {
+	for k := lo; k < hi; k++ {
+		if !f(k, s[k]) {
+			return false
+		}
+	}
+	return true
+}
+
 func existsIn[T any](s []T, lo, hi int, f func(k int, e T) bool) bool {
 	for k := lo; k < hi; k++ {
 		if f(k, s[k]) {
